@@ -1153,11 +1153,15 @@ def markers_sane(g):
     """markers as a decoder leaves them on each triple, whatever the triple order: Push(v) only on
     a non-instance triple with v its source or target and v a variable (cf. `_preconfigure`)"""
     vs = g.variables()
+    pushed = set()
     for t, es in g.epidata.items():
         for e in es:
             if isinstance(e, layout.Push):
                 if t[1] == ':instance' or e.variable not in (t[0], t[2]) or e.variable not in vs or t[2] not in vs:
                     return False
+                if e.variable in pushed:
+                    return False        # a decoder opens each variable's node once
+                pushed.add(e.variable)
     return push_vars_ok(g)
 
 
